@@ -28,7 +28,8 @@ def main():
             self.metadata = {}
     keys = ["id", "name", "test-key", "a_b"]
     vals = ["x", "two words", "v1", "has.dot"]
-    texts = ["", "free text", "note; with, punctuation!"]
+    edge_vals = [".5", "(draft) v2", "-5", "\"quoted\""]          # values that begin with a character that is not a letter or digit
+    texts = ["", "free text", "note; with, punctuation!", "see:: below", "odd : : colons;"]
     bodies = ["$f.csv[*][yes()]", "$f.csv[1-3][#a == \"b\" @x = 1]", "$f.csv[0+2][count() > 1]"]
     combos = []
     for n in (1, 2):
@@ -37,6 +38,10 @@ def main():
                 combos.append(list(zip(ks, vs)))
     if not b.thorough():
         combos = combos[::7]
+    for ev in edge_vals:
+        combos += [[("id", ev)], [("name", ev), ("id", "x")], [("id", "x"), ("test-key", ev)]]
+    # a value that contains the NEXT key's name as a substring of one of its words
+    combos += [[("name", "a valid idea"), ("id", "x")], [("id", "rename it"), ("name", "x")], [("test-key", "a_b_c and a_b"), ("a_b", "v1")]]
     for fields in combos:
         for pre in texts:
             for body in bodies:
@@ -90,7 +95,7 @@ def main():
 
     # ---------------------------------------------------------------- scope C: end to end
     files = [["a,b", "1,x", "2,y", "3,x"], ["a,b", "", "1,x", "", "2,x"], ["a,b", "1,x", "2,y", ""], ["a,b"]]
-    matches = ['#b == "x"', "yes()", "no()", 'line_number() == 2 -> stop()', '#a == "2" -> skip()']
+    matches = ['#b == "x"', "yes()", "no()", 'line_number() == 2 -> stop()', '#a == "2" -> skip()', 'below(count(), 3)', '#b == "x" @c = count()']
     scans = ["*", "1-2", "0+2"]
     for fi, lines in enumerate(files):
         fn = b.write_lines(f"f{fi}.csv", lines)
